@@ -116,7 +116,13 @@ def _run(src):
     case = {'kind': 'synth', 'n': src['n'], 'm': src['m'], 'mtt': src['mtt'], 'r': src['r'], 'basis': src['basis'], 'norm': src['norm'],
             'fix': src['fix'], 'forbid': src['forbid'], 'result': '', 'src': src}
     try:
-        f = CircuitFinderSat(model, src['r'], basis=basis, need_normalized=src['norm'])
+        kw = {'basis': basis, 'need_normalized': src['norm']}
+        # keywords left out where the documented default says the same (basis XAIG, no normalisation)
+        if src['basis_kind'] == 'XAIG' and src['spelled'] == 'enum':
+            del kw['basis']
+        if not src['norm'] and src['r'] % 2 == 0:
+            del kw['need_normalized']
+        f = CircuitFinderSat(model, src['r'], **kw)
         for fx in src['fix']:
             kw = {}
             if fx['p1'] >= 0:
